@@ -238,6 +238,29 @@ def r03d(ctx):
                           f"sub-edit costs (and may depend on status settings)")
 
 
+def r03e(ctx):
+    m = ctx.model
+    ctx.rule("R03e", "the matcher's cost and the multiset's script come from the same matching: WeightedBipartiteMatcher.bounds "
+                     "sums the edges of self._match once a matching exists, `matching` returns that same self._match, and "
+                     "MultiSetEdit.edits yields the edges of self._matcher.matching")
+    q = m.need_class("WeightedBipartiteMatcher")
+    b, mt = m.method(q, "bounds"), m.method(q, "matching")
+    bt = ast.unparse(b.node).replace(" ", "")
+    ok_b = "for_,(_,edge)inself._match.items():" in bt and "lb+=edge.bounds().lower_bound" in bt and "ub+=edge.bounds().upper_bound" in bt
+    rets = [r for r in walk_no_nested(mt.node) if isinstance(r, ast.Return)]
+    ok_m = rets and all(self_attr(r.value) == "_match" for r in rets)
+    me = m.method(m.need_class("MultiSetEdit"), "edits")
+    ok_e = "self._matcher.matching.items()" in ast.unparse(me.node).replace(" ", "")
+    if ok_b and ok_m and ok_e:
+        ctx.proved("R03e", b.file, "WeightedBipartiteMatcher.bounds", b.node, "one matching for cost and script",
+                   "bounds() sums self._match's edges; matching returns self._match; MultiSetEdit.edits lists its edges")
+    else:
+        which = [n for n, o in (("bounds sums self._match edges", ok_b), ("matching returns self._match", ok_m),
+                                ("MultiSetEdit.edits lists matcher.matching", ok_e)) if not o]
+        ctx.violation("R03e", b.file, "WeightedBipartiteMatcher.bounds", b.node, "one matching for cost and script",
+                      f"cost and script of a multiset edit are no longer drawn from the same matching: {which}")
+
+
 def r03c(ctx):
     m = ctx.model
     ctx.rule("R03c", "the three views read the same script: edited_cost sums edit_list after tightening it; "
@@ -283,6 +306,7 @@ def run(ctx):
     r03a(ctx)
     r03b(ctx)
     r03c(ctx)
+    r03e(ctx)
     r03d(ctx)
     from .c04 import r04d
     r04d(ctx)
